@@ -47,10 +47,18 @@ class CustomError(Exception):
         return (CustomError, (self.args[0], self.code), dict(self.__dict__))
 
 
+def _noted(k):
+    """an exception that ALREADY carries a note of the user's own when it leaves the user function (PEP 678)"""
+    e = ValueError("boom-with-note", k)
+    e.add_note("hint added by the user function")
+    return e
+
+
 EXC = {
     "ValueError": lambda k: ValueError("boom", k),
     "KeyError": lambda k: KeyError(),
     "Custom": lambda k: CustomError("custom-boom", 40 + k),
+    "Noted": _noted,
 }
 
 
@@ -192,6 +200,8 @@ def run_map_fault(cfg, fault, chooser=None):  # noqa: C901, PLR0912, PLR0915
                 warnings.simplefilter("ignore")
                 if mode == "sequential":
                     p.map(dict(inputs), parallel=False, **kw)
+                elif mode == "sequential-progress":
+                    p.map(dict(inputs), parallel=False, show_progress=True, **kw)
                 elif mode in ("deferred-sync", "deferred-async"):
                     s = sched.Sched(chooser or explore.Chooser())
                     ex, _ = c03.make_executors(spec, cfg.get("exec", "one"), s)
@@ -351,7 +361,9 @@ def plan(tier, seed):
     for pipe in c03.PIPES:
         for fname, k in map_faults(pipe):
             for exc in EXC:
-                for mode, storage in (("sequential", "file_array"), ("sequential", "dict"), ("thread", "file_array")):
+                for mode, storage in (("sequential", "file_array"), ("sequential", "dict"), ("thread", "file_array"), ("sequential-progress", "dict")):
+                    if mode == "sequential-progress" and exc != "ValueError":
+                        continue
                     units.append(("map-sequential-and-thread-pool", ("map", {"pipe": pipe, "mode": mode, "storage": storage}, {"func": fname, "call": k, "exc": exc}, None)))
                 if tier == "thorough":
                     units.append(("map-process-pool", ("map", {"pipe": pipe, "mode": "process", "storage": "file_array"}, {"func": fname, "call": k, "exc": exc}, None)))
